@@ -10,6 +10,7 @@ import (
 	"strconv"
 	"strings"
 	"sync"
+	"sync/atomic"
 	"time"
 )
 
@@ -124,6 +125,7 @@ type Report struct {
 	replayFile string
 	sigSeen    map[string]bool
 	divNotes   int
+	expired    atomic.Bool
 }
 
 var (
@@ -163,6 +165,9 @@ func Rep() *Report {
 		r.outPath = os.Getenv("VERIF_OUT")
 		r.replayDir = os.Getenv("VERIF_REPLAY_DIR")
 		r.replayFile = os.Getenv("VERIF_REPLAY")
+		// The budget is enforced by a real-time timer started here, outside any bubble: inside a
+		// synctest bubble time.Now() is virtual and would never reach the deadline.
+		time.AfterFunc(time.Until(r.deadline), func() { r.expired.Store(true) })
 		rep = r
 	})
 	return rep
@@ -200,7 +205,7 @@ func (r *Report) Assumption(s string) {
 }
 
 // TimeLeft reports whether the wall budget still allows more work.
-func (r *Report) TimeLeft() bool { return time.Now().Before(r.deadline) }
+func (r *Report) TimeLeft() bool { return !r.expired.Load() }
 
 // Flush writes the shard result file.
 func (r *Report) Flush() {
@@ -228,20 +233,21 @@ func (s *ScenarioStats) finish() {
 	const capSet = 50000
 	s.Distinct = s.Distinct[:0]
 	for h := range s.distinctSet {
-		if len(s.Distinct) >= capSet {
-			break
-		}
 		s.Distinct = append(s.Distinct, h)
 	}
 	s.Nontrivial = s.Nontrivial[:0]
 	for h := range s.nontrivialSet {
-		if len(s.Nontrivial) >= capSet {
-			break
-		}
 		s.Nontrivial = append(s.Nontrivial, h)
 	}
 	sort.Slice(s.Distinct, func(i, j int) bool { return s.Distinct[i] < s.Distinct[j] })
 	sort.Slice(s.Nontrivial, func(i, j int) bool { return s.Nontrivial[i] < s.Nontrivial[j] })
+	// keep the smallest hashes (deterministic) when the sets are too large to ship
+	if len(s.Distinct) > capSet {
+		s.Distinct = s.Distinct[:capSet]
+	}
+	if len(s.Nontrivial) > capSet {
+		s.Nontrivial = s.Nontrivial[:capSet]
+	}
 }
 
 // NewScenario registers a scenario stats block (used directly by Engine Q harnesses).
